@@ -71,4 +71,7 @@ def obligations(ctx):
             agg.stats["paths"] += E.stats["paths"]; agg.stats["feasibility_queries"] += E.stats["feasibility_queries"]; agg.stats["functions"] |= E.stats["functions"]
     if n < 4:
         ob.fail("only %d of 4 attribute combinations round-tripped" % n)
-    ob.finish(agg, lambda m, info=None: ("e2n_c11_byron_attributes", [[b for b in int(m.eval(z3.Int("magic"), model_completion=True).as_long()).to_bytes(4, "little")]]))
+    def nat(m, info=None):
+        magic = int(m.eval(z3.Int("magic"), model_completion=True).as_long()) if m is not None else 1097911063     # structural violations carry no model: testnet magic
+        return "e2n_c11_byron_attributes", [[b for b in magic.to_bytes(4, "little")]]
+    ob.finish(agg, nat)
